@@ -464,7 +464,7 @@ func genQuery(r *hx.Rand, c *cfgT) string {
 	var parts []string
 	for i := 0; i < n; i++ {
 		p := hx.Pick(r, params)
-		val := genVersionValue(r, c)
+		val := strings.ReplaceAll(genVersionValue(r, c), " ", "+") // a request line carries no raw space
 		key := p
 		switch r.Intn(14) {
 		case 0:
@@ -731,21 +731,22 @@ func genCase(r *hx.Rand) caseT {
 		switch op.K {
 		case "H":
 			if r.Chance(2, 3) {
-				q.Hdr = append(q.Hdr, [2]string{op.A, genVersionValue(r, c)})
+				// net/http delivers header values without leading / trailing white space
+				q.Hdr = append(q.Hdr, [2]string{op.A, strings.TrimSpace(genVersionValue(r, c))})
 				if r.Chance(1, 10) {
 					q.Hdr = append(q.Hdr, [2]string{op.A, hx.Pick(r, verPool)})
 				}
 			}
 		case "C":
 			if r.Chance(1, 2) {
-				q.Hdr = append(q.Hdr, [2]string{custHeader(op.N), genVersionValue(r, c)})
+				q.Hdr = append(q.Hdr, [2]string{custHeader(op.N), strings.TrimSpace(genVersionValue(r, c))})
 			}
 		}
 	}
 	if r.Chance(1, 2) {
-		q.Hdr = append(q.Hdr, [2]string{"Accept", genAccept(r, c)})
+		q.Hdr = append(q.Hdr, [2]string{"Accept", strings.TrimSpace(genAccept(r, c))})
 		if r.Chance(1, 12) {
-			q.Hdr = append(q.Hdr, [2]string{"Accept", genAccept(r, c)})
+			q.Hdr = append(q.Hdr, [2]string{"Accept", strings.TrimSpace(genAccept(r, c))})
 		}
 	}
 	return k
